@@ -62,6 +62,23 @@ class ClassInfo:
         return "<Class %s>" % self.key
 
 
+class _CanonIf(ast.NodeTransformer):
+    """Canonical form of two-armed conditionals: `if not X: B else: A` is analysed as `if X: A else: B` (exactly the same
+    behaviour), so that no rule depends on which arm a developer happened to write first.  Nodes keep their positions."""
+
+    def visit_If(self, node):
+        self.generic_visit(node)
+        while node.orelse and isinstance(node.test, ast.UnaryOp) and isinstance(node.test.op, ast.Not):
+            node.test, node.body, node.orelse = node.test.operand, node.orelse, node.body
+        return node
+
+    def visit_IfExp(self, node):
+        self.generic_visit(node)
+        while isinstance(node.test, ast.UnaryOp) and isinstance(node.test.op, ast.Not):
+            node.test, node.body, node.orelse = node.test.operand, node.orelse, node.body
+        return node
+
+
 class ModuleInfo:
     def __init__(self, name, path, relpath, source):
         self.name = name
@@ -73,6 +90,7 @@ class ModuleInfo:
             self.tree = ast.parse(source, filename=path)
         except SyntaxError as e:  # pragma: no cover
             raise AnalysisError("cannot parse %s: %s" % (relpath, e))
+        _CanonIf().visit(self.tree)
         self.functions = {}   # qualname -> FuncInfo (incl. methods "Class.meth", nested "f.<locals>.g")
         self.classes = {}     # name -> ClassInfo
         self.constants = {}   # module-level NAME -> python constant (folded)
